@@ -422,7 +422,132 @@ def job_fresh_rounds(job):
                                                     'got': str(got)[:200], 'expected': str(exp)[:200], 'error': err,
                                                     'history': f'rounds 0..{rnd} over the pool {[[q[0], list(q[1])] for q in pool]}'})
                 gc.collect() if rnd == 3 else None
+        # the same operand object before and after its coefficients were changed in place (multivectors are mutable: mv[i] = .., writes
+        # into mv.values(), dragged points of the graph widget): an involution is a function of the coefficients the operand holds now
+        import numpy as np
+        for p in pool[:5]:
+            for backing in ('list', 'ndarray'):
+                for name in job['ops']:
+                    out['evaluations'] += 1
+                    try:
+                        a = build(p)
+                        if backing == 'ndarray':
+                            a = mv_from(alg, a.keys(), [np.array([float(v), float(v) + 1.0]) for v in a.values()])
+                        first = getattr(a, name)() if name != 'neg' else -a
+                        if name == 'reverse':
+                            first = ~a
+                        if backing == 'list':
+                            vals = a.values()
+                            for i_ in range(len(vals)):
+                                vals[i_] = vals[i_] * 3 + 1
+                            cur = O.nz(fr.mv_to_ref(a))
+                            second = (~a if name == 'reverse' else -a if name == 'neg' else getattr(a, name)())
+                            got = O.nz(fr.mv_to_ref(second))
+                        else:
+                            a[1] = [float(10 + i_) for i_ in range(len(a.keys()))]
+                            el = mv_from(alg, a.keys(), [float(v[1]) for v in a.values()])
+                            cur = O.nz(fr.mv_to_ref(el))
+                            second = (~a if name == 'reverse' else -a if name == 'neg' else getattr(a, name)())
+                            got = O.nz(fr.mv_to_ref(mv_from(alg, second.keys(), [float(v[1]) for v in second.values()])))
+                        exp = O.nz(rules[name](cur))
+                        ok, err = O.eq(got, exp), None
+                    except Exception as e:
+                        ok, err, got, exp = False, type(e).__name__ + ': ' + str(e)[:120], None, None
+                    if not ok:
+                        percat[(name, 'inplace')] = percat.get((name, 'inplace'), 0) + 1
+                        if percat[(name, 'inplace')] <= 3:
+                            out['failures'].append({'config': cfg, 'op': name, 'operand': [p[0], list(p[1])], 'backing': backing,
+                                                    'what': 'unary result after an in-place update of the operand does not reflect its current coefficients',
+                                                    'history': 'op(a); update the coefficients of a in place; op(a)', 'got': str(got)[:200], 'expected': str(exp)[:200], 'error': err})
         if len(out['samples']) < 3:
             out['samples'].append({'config': cfg, 'pool': [[q[0], list(q[1])] for q in pool], 'rounds': cfg.get('rounds', 6)})
+    out['distinct'] = len(pats)
+    return out
+
+
+# ------------------------------------------------------------------ C09: the same operand objects before and after an in-place update
+def job_inplace_history(job):
+    """op(a, b); the coefficients of a are changed in place (writes into a.values(), a[i] = ..); op(a, b) again: the second value
+    must equal what a freshly created algebra returns for fresh operands holding the current coefficients."""
+    import numpy as np
+    import warnings
+    from standins import oracle as O
+    from standins.native import make_algebra, mv_from, frac_vals
+    from standins.jobs5 import _eqtol
+    rng = random.Random(job.get('seed', 0))
+    out = {'evaluations': 0, 'failures': [], 'samples': [], 'configs': 0}
+    unary = ['normsq', 'norm', 'normalized', 'reverse', 'involute', 'conjugate', 'neg', 'hodge', 'inv', 'sqrt']
+    binary = ['gp', 'add', 'sub', 'sw', 'proj', 'op', 'ip', 'div']
+    pats = set()
+    percat = {}
+    for cfg in job['configs']:
+        alg = make_algebra(cfg)
+        fr = O.Frame(alg)
+        out['configs'] += 1
+        N = 2 ** alg.d
+        for it in range(cfg.get('random', 4)):
+            ak = tuple(alg.indices_for_grades[(1,)]) if it % 2 == 0 else tuple(sorted(rng.sample(range(N), rng.randint(1, min(N, 4)))))
+            bk = tuple(sorted(rng.sample(range(N), rng.randint(1, min(N, 3)))))
+            for name in unary + binary:
+                for backing in ('list', 'ndarray'):
+                    out['evaluations'] += 1
+                    pats.add((json.dumps(cfg, sort_keys=True), name, ak, bk))
+                    av, bv = [float(rng.randint(1, 6)) for _ in ak], [float(rng.randint(1, 6)) for _ in bk]
+                    if name == 'sqrt':
+                        ak_, av_ = (0,), [4.0]
+                    else:
+                        ak_, av_ = ak, av
+
+                    def run(A, a, b):
+                        # the method form (what users write; per-object memos live there) and the algebra-level form
+                        if name == 'neg':
+                            return -a
+                        if hasattr(a, name):
+                            r_ = getattr(a, name)(b) if name in binary else getattr(a, name)()
+                            if A is alg:
+                                f = getattr(A, name, None)
+                                if f is not None:
+                                    f(a, b) if name in binary else f(a)
+                            return r_
+                        f = getattr(A, name)
+                        return f(a, b) if name in binary else f(a)
+
+                    def tod(mv, j=None):
+                        return O.nz(fr.to_ref(mv.keys(), [(v[j] if j is not None else v) for v in mv.values()])) if len(mv.keys()) else {}
+                    with warnings.catch_warnings():
+                        warnings.simplefilter('ignore')
+                        try:
+                            if backing == 'list':
+                                a, b = mv_from(alg, ak_, list(av_)), mv_from(alg, bk, list(bv))
+                                run(alg, a, b)
+                                vals = a.values()
+                                for i_ in range(len(vals)):
+                                    vals[i_] = vals[i_] * 2 + 1
+                                cur = list(vals)
+                                got = ('value', tod(run(alg, a, b)))
+                            else:
+                                a = mv_from(alg, ak_, [np.array([v, v + 1.0]) for v in av_])
+                                b = mv_from(alg, bk, [np.array([v, v + 2.0]) for v in bv])
+                                run(alg, a, b)
+                                a[1] = [float(7 + i_) for i_ in range(len(ak_))]
+                                cur = [float(v[1]) for v in a.values()]
+                                got = ('value', tod(run(alg, a, b), 1))
+                        except Exception as e:
+                            got = ('raise', type(e).__name__)
+                        try:
+                            fresh = make_algebra(cfg)
+                            bcur = list(bv) if backing == 'list' else [v + 2.0 for v in bv]
+                            exp = ('value', tod(run(fresh, mv_from(fresh, ak_, list(cur)), mv_from(fresh, bk, bcur))))
+                        except Exception as e:
+                            exp = ('raise', type(e).__name__)
+                    ok = got[0] == exp[0] and (got[0] == 'raise' or _eqtol(got[1], exp[1]))
+                    if not ok:
+                        percat[name] = percat.get(name, 0) + 1
+                        if percat[name] <= 3:
+                            out['failures'].append({'config': cfg, 'op': name, 'backing': backing, 'a_keys': list(ak_), 'b_keys': list(bk),
+                                                    'what': 'result after an in-place update of the operand differs from a fresh algebra on the current coefficients',
+                                                    'history': 'op(a, b); coefficients of a changed in place; op(a, b)', 'got': str(got)[:200], 'expected': str(exp)[:200]})
+        if len(out['samples']) < 3:
+            out['samples'].append({'config': cfg, 'a_keys': list(ak), 'b_keys': list(bk)})
     out['distinct'] = len(pats)
     return out
